@@ -338,7 +338,112 @@ func checkC19Order(p *Prog, r *Report, acl *ssa.Function) {
 	newConn := anchorFunc(p, r, pkgRsyncd, "", "NewConnection")
 	if serve != nil && newConn != nil {
 		found := false
-		for _, f := range append([]*ssa.Function{serve}, serve.AnonFuncs...) {
+		gPA := p.ModGraph()
+		// fromRemoteAddr: the value is conn.RemoteAddr() of the accepted
+		// connection, possibly through a captured variable, a closure binding
+		// or a helper's parameter (go s.serveConn(ctx, conn, remoteAddr))
+		var fromRemoteAddr func(src ssa.Value, depth int) bool
+		fromRemoteAddr = func(src ssa.Value, depth int) bool {
+			if depth > 5 {
+				return false
+			}
+			switch x := src.(type) {
+			case *ssa.Call:
+				return x.Common().IsInvoke() && x.Common().Method.Name() == "RemoteAddr"
+			case *ssa.UnOp:
+				if x.Op != token.MUL {
+					return false
+				}
+				if fv, isFV := x.X.(*ssa.FreeVar); isFV {
+					// captured variable: its stores in the enclosing function
+					parent := fv.Parent().Parent()
+					n, all := 0, true
+					for ; parent != nil; parent = parent.Parent() {
+						for _, b := range parent.Blocks {
+							for _, in := range b.Instrs {
+								if st, isSt := in.(*ssa.Store); isSt {
+									if al, isAl := st.Addr.(*ssa.Alloc); isAl && al.Comment == fv.Name() {
+										n++
+										if !fromRemoteAddr(st.Val, depth+1) {
+											all = false
+										}
+									}
+								}
+							}
+						}
+					}
+					return n > 0 && all
+				}
+				if al, isAl := x.X.(*ssa.Alloc); isAl {
+					n, all := 0, true
+					for _, ref := range *al.Referrers() {
+						if st, isSt := ref.(*ssa.Store); isSt && st.Addr == ssa.Value(al) {
+							n++
+							if !fromRemoteAddr(st.Val, depth+1) {
+								all = false
+							}
+						}
+					}
+					return n > 0 && all
+				}
+			case *ssa.FreeVar:
+				f := x.Parent()
+				n, all := 0, true
+				if f.Parent() != nil {
+					for _, b := range f.Parent().Blocks {
+						for _, in := range b.Instrs {
+							if mc, isMC := in.(*ssa.MakeClosure); isMC && mc.Fn == ssa.Value(f) {
+								for bi, fv2 := range f.FreeVars {
+									if fv2 == x {
+										n++
+										if !fromRemoteAddr(mc.Bindings[bi], depth+1) {
+											all = false
+										}
+									}
+								}
+							}
+						}
+					}
+				}
+				return n > 0 && all
+			case *ssa.Parameter:
+				f := x.Parent()
+				idx := -1
+				for i, pp := range f.Params {
+					if pp == x {
+						idx = i
+					}
+				}
+				n, all := 0, true
+				for _, e := range gPA.In[f] {
+					cs, isCS := e.Site.(ssa.CallInstruction)
+					if isTestSupport(pkgPathOfFunc(e.From)) {
+						continue
+					}
+					if !isCS || e.Escape || cs.Common().StaticCallee() != f || idx < 0 || idx >= len(cs.Common().Args) {
+						return false
+					}
+					n++
+					if !fromRemoteAddr(cs.Common().Args[idx], depth+1) {
+						all = false
+					}
+				}
+				return n > 0 && all
+			}
+			return false
+		}
+		scope := append([]*ssa.Function{}, gPA.unitFuncs(serve)...)
+		seenF := map[*ssa.Function]bool{}
+		for _, f := range scope {
+			seenF[f] = true
+		}
+		for _, f := range serve.AnonFuncs {
+			if !seenF[f] {
+				scope = append(scope, f)
+			}
+		}
+		for _, f := range scope {
+			f := f
 			allCalls(f, func(c ssa.CallInstruction) {
 				if c.Common().StaticCallee() != newConn {
 					return
@@ -347,45 +452,7 @@ func checkC19Order(p *Prog, r *Report, acl *ssa.Function) {
 				nm := c.Common().Args[2]
 				ok := false
 				if sc, isCall := nm.(*ssa.Call); isCall && sc.Common().IsInvoke() && sc.Common().Method.Name() == "String" {
-					// receiver derives from conn.RemoteAddr()
-					src := sc.Common().Value
-					for i := 0; i < 4 && !ok; i++ {
-						if ra, isC := src.(*ssa.Call); isC && ra.Common().IsInvoke() && ra.Common().Method.Name() == "RemoteAddr" {
-							ok = true
-							break
-						}
-						if ld, isLd := src.(*ssa.UnOp); isLd && ld.Op == token.MUL {
-							if fv, isFV := ld.X.(*ssa.FreeVar); isFV {
-								// captured variable: find its store in parent
-								for _, b := range serve.Blocks {
-									for _, in := range b.Instrs {
-										if st, isSt := in.(*ssa.Store); isSt {
-											if al, isAl := st.Addr.(*ssa.Alloc); isAl && al.Comment == fv.Name() {
-												src = st.Val
-											}
-										}
-									}
-								}
-								continue
-							}
-						}
-						if fv, isFV := src.(*ssa.FreeVar); isFV {
-							// captured by value: binding in MakeClosure
-							for _, b := range serve.Blocks {
-								for _, in := range b.Instrs {
-									if mc, isMC := in.(*ssa.MakeClosure); isMC && mc.Fn == ssa.Value(f) {
-										for bi, fv2 := range f.FreeVars {
-											if fv2 == fv {
-												src = mc.Bindings[bi]
-											}
-										}
-									}
-								}
-							}
-							continue
-						}
-						break
-					}
+					ok = fromRemoteAddr(sc.Common().Value, 0)
 				}
 				r.Cond(ok, "C19/PEER-ADDRESS", funcKey(f)+" → NewConnection(name)", p.Pos(instrPos(c)), "peer name must be the accepted connection's RemoteAddr().String(), not peer-supplied text")
 			})
